@@ -130,6 +130,17 @@ func C06(r *Run) *core.Report {
 	// lock and a concurrent resize cannot bring it back (restated from C03/C04 P3-P6)
 	n7 := borrow(rep, mapProtocol(r, "C03", 0), "C06.E7", "C03.P3", "C03.P4", "C03.P5", "C03.P6")
 	n7 += borrow(rep, mapProtocol(r, "C04", 1), "C06.E7", "C04.P3", "C04.P4", "C04.P5", "C04.P6")
+	// ... and the removing map operation reports what the locked removal did, not an earlier lock-free read
+	for _, o := range C11(r).Obs {
+		if o.Trivial || o.Rule != "C11.L1" || !strings.Contains(o.Construct, "returns the locked operation's results") {
+			continue
+		}
+		c := *o
+		c.Construct = "[" + o.Rule + "] " + o.Construct
+		c.Rule = "C06.E7"
+		rep.Obs = append(rep.Obs, &c)
+		n7++
+	}
 	rep.MinCount("C06.E7", "premise obligations (removals are final)", n7, 10)
 	// E5 second half: borrowed from C13.L5
 	tmp := core.NewReport("C06")
